@@ -3,9 +3,11 @@
 // One op line is a whole scenario:
 //
 //	<params>/<sub-clusters>/<requests>/<schedule>
-//	params   rm=<RetryMax>,cr=<CrossRetry>,rl=<RetryLevel 0|1>,ip=<client ip as uint32>,w=<murmur3(ip) % totalWeight>
+//	params   rm=<RetryMax>,cr=<CrossRetry>,rl=<RetryLevel 0|1>,ip=<client ip as uint32>,h=<murmur3.Sum64(ip)>,
+//	         bm=<0 WRR | 1 WLC | 2 session sticky>,fn=<health-check FailNum, 0 = no health check conf>
 //	subs     name:weight:backends;...        in sub-cluster list order (= sorted by name), backends = (u|d)(weight digit)... or -
 //	requests method:body:script;...          method G P H g ; body n e r s S ; script = attempt.attempt... or - ; attempt = <fwd><rt>
+//	         fwd: g goon, f Finish, r p c (ignored verdicts), x y z u = the callback REPLACES Trans.Backend by backend #0..#3
 //	schedule i<k> / f<k> steps joined by '.' (clusterInvoke of request k / FinishReq of request k)
 //
 // and it is run against the REAL bfe_server.clusterInvoke / FinishReq with a real bal_gslb.BalanceGslb,
@@ -35,6 +37,7 @@ import (
 	"github.com/bfenetworks/bfe/bfe_module"
 	"github.com/bfenetworks/bfe/bfe_server"
 	"github.com/bfenetworks/bfe/bfe_spdy"
+	"github.com/spaolacci/murmur3"
 )
 
 // ---------------------------------------------------------------- scenario description
@@ -66,18 +69,19 @@ type Step struct {
 type Scenario struct {
 	Rm, Cr, Rl int
 	IP         uint32
-	W          int
+	H          uint64
+	Bm, Fn     int
 	Subs       []Sub
 	Reqs       []Req
 	Sched      []Step
 }
 
-const FwdChars = "gfrpc"
+const FwdChars = "gfrpcxyzu"
 const RtChars = "25cCwvWhHtbo"
 
 func (s *Scenario) String() string {
 	var b strings.Builder
-	fmt.Fprintf(&b, "rm=%d,cr=%d,rl=%d,ip=%d,w=%d/", s.Rm, s.Cr, s.Rl, s.IP, s.W)
+	fmt.Fprintf(&b, "rm=%d,cr=%d,rl=%d,ip=%d,h=%d,bm=%d,fn=%d/", s.Rm, s.Cr, s.Rl, s.IP, s.H, s.Bm, s.Fn)
 	for i, sc := range s.Subs {
 		if i > 0 {
 			b.WriteByte(';')
@@ -143,22 +147,31 @@ func Parse(op string) (*Scenario, bool) {
 		if len(p) != 2 {
 			return nil, false
 		}
+		if p[0] == "h" {
+			v, err := strconv.ParseUint(p[1], 10, 64)
+			if err != nil {
+				return nil, false
+			}
+			s.H = v
+			kv["h"] = 0
+			continue
+		}
 		v, err := strconv.ParseInt(p[1], 10, 64)
 		if err != nil {
 			return nil, false
 		}
 		kv[p[0]] = v
 	}
-	for _, k := range []string{"rm", "cr", "rl", "ip", "w"} {
+	for _, k := range []string{"rm", "cr", "rl", "ip", "h", "bm", "fn"} {
 		if _, ok := kv[k]; !ok {
 			return nil, false
 		}
 	}
-	if len(kv) != 5 || kv["ip"] < 0 || kv["ip"] > 0xffffffff || kv["w"] < 0 || kv["w"] > 1<<30 ||
+	if len(kv) != 7 || kv["ip"] < 0 || kv["ip"] > 0xffffffff || kv["bm"] < 0 || kv["bm"] > 2 || kv["fn"] < 0 || kv["fn"] > 9 ||
 		kv["rm"] < -100 || kv["rm"] > 100 || kv["cr"] < -100 || kv["cr"] > 100 || kv["rl"] < 0 || kv["rl"] > 9 {
 		return nil, false
 	}
-	s.Rm, s.Cr, s.Rl, s.IP, s.W = int(kv["rm"]), int(kv["cr"]), int(kv["rl"]), uint32(kv["ip"]), int(kv["w"])
+	s.Rm, s.Cr, s.Rl, s.IP, s.Bm, s.Fn = int(kv["rm"]), int(kv["cr"]), int(kv["rl"]), uint32(kv["ip"]), int(kv["bm"]), int(kv["fn"])
 	// sub clusters
 	for _, f := range strings.Split(secs[1], ";") {
 		p := strings.Split(f, ":")
@@ -243,16 +256,12 @@ func (s *Scenario) TotalWeight() int {
 	return t
 }
 
-func IPBytes(ip uint32) net.IP { return net.IP{byte(ip >> 24), byte(ip >> 16), byte(ip >> 8), byte(ip)} }
-
-// HashW is the real sub-cluster hash residue for the scenario's client address.
-func (s *Scenario) HashW() int {
-	t := s.TotalWeight()
-	if t <= 0 {
-		return 0
-	}
-	return bal_slb.GetHash(IPBytes(s.IP), uint(t))
+func IPBytes(ip uint32) net.IP {
+	return net.IP{byte(ip >> 24), byte(ip >> 16), byte(ip >> 8), byte(ip)}
 }
+
+// HashH is the real 64-bit hash of the scenario's hash key (the client address), as bal_slb.GetHash computes it.
+func (s *Scenario) HashH() uint64 { return murmur3.Sum64(IPBytes(s.IP)) }
 
 // ---------------------------------------------------------------- execution on the real code
 
@@ -264,6 +273,7 @@ type reqState struct {
 	dead    bool // clusterInvoke panicked: the serving goroutine is gone, FinishReq never runs
 	done    bool
 	events  []string
+	orig    string // label of the backend Balance returned, when the callback replaced it
 }
 
 type runner struct {
@@ -272,6 +282,7 @@ type runner struct {
 	names []string
 	backs [][]*backend.BfeBackend
 	label map[*backend.BfeBackend]string
+	all   []*backend.BfeBackend
 	cur   *reqState
 }
 
@@ -311,6 +322,15 @@ func (r *runner) forward(req *bfe_basic.Request) int {
 		c.events = append(c.events, lab+"F")
 		c.att++
 		return bfe_module.BfeHandlerFinish
+	case 'x', 'y', 'z', 'u':
+		// a forward-phase module that re-targets the request: clusterInvoke re-reads Trans.Backend afterwards
+		if k := strings.IndexByte("xyzu", a.Fwd); k < len(r.all) {
+			if r.all[k] != req.Trans.Backend {
+				c.orig = lab
+			}
+			req.Trans.Backend = r.all[k]
+		}
+		return bfe_module.BfeHandlerGoOn
 	case 'r':
 		return bfe_module.BfeHandlerRedirect
 	case 'p':
@@ -335,6 +355,10 @@ func (r *runner) RoundTrip(out *bfe_http.Request) (*bfe_http.Response, error) {
 	}
 	if out.URL.Host != c.req.Trans.Backend.GetAddrInfo() {
 		lab += "!addr"
+	}
+	if c.orig != "" {
+		lab = c.orig + "~" + lab
+		c.orig = ""
 	}
 	c.events = append(c.events, lab+"@"+r.conn())
 	inner := errors.New("scripted")
@@ -447,16 +471,22 @@ func Exec(op string) string {
 	if sc.TotalWeight() <= 0 {
 		return "err:init"
 	}
-	if sc.HashW() != sc.W {
-		return fmt.Sprintf("bad-w:%d", sc.HashW())
+	if sc.HashH() != sc.H || bal_slb.GetHash(IPBytes(sc.IP), 1000003) != int(sc.H%1000003) {
+		return fmt.Sprintf("bad-w:%d", sc.HashH())
 	}
 	r := &runner{sc: sc, label: map[*backend.BfeBackend]string{}}
 
 	proto := "http"
 	rl, rm, cr := sc.Rl, sc.Rm, sc.Cr
+	mode := cluster_conf.BalanceModeWrr
+	if sc.Bm == 1 {
+		mode = cluster_conf.BalanceModeWlc
+	}
+	sticky := sc.Bm == 2
 	conf := cluster_conf.ClusterConf{
 		BackendConf: &cluster_conf.BackendBasic{Protocol: &proto, RetryLevel: &rl},
-		GslbBasic:   &cluster_conf.GslbBasicConf{CrossRetry: &cr, RetryMax: &rm},
+		GslbBasic: &cluster_conf.GslbBasicConf{CrossRetry: &cr, RetryMax: &rm, BalanceMode: &mode,
+			HashConf: &cluster_conf.HashConf{SessionSticky: &sticky}},
 	}
 	gslb := gslb_conf.GslbClusterConf{}
 	cb := cluster_table_conf.ClusterBackend{}
@@ -465,8 +495,8 @@ func Exec(op string) string {
 		var l cluster_table_conf.SubClusterBackend
 		for j, b := range s.Backs {
 			name := fmt.Sprintf("%s%d", s.Name, j)
-			addr := fmt.Sprintf("10.1.%d.%d", i, j)
-			port := 8000
+			addr := fmt.Sprintf("127.1.%d.%d", i, j) // loopback, nothing listens: health checks fail at once
+			port := 9
 			w := b.Weight
 			l = append(l, &cluster_table_conf.BackendConf{Name: &name, Addr: &addr, Port: &port, Weight: &w})
 		}
@@ -477,6 +507,22 @@ func Exec(op string) string {
 		return "err:init"
 	}
 	r.env = env
+	// health-check configuration: with FailNum > 0 the real OnFail/UpdateStatus marks backends down
+	// between attempts (the checker goroutine it starts can never succeed; Release stops it)
+	if sc.Fn > 0 {
+		schem, fn, iv, to, succ := "tcp", sc.Fn, 2, 20, 1000000
+		cc := &cluster_conf.BackendCheck{Schem: &schem, FailNum: &fn, CheckInterval: &iv, CheckTimeout: &to, SuccNum: &succ}
+		if err := cluster_conf.BackendCheckCheck(cc); err != nil {
+			return "err:init"
+		}
+		backend.SetCheckConfFetcher(func(string) *cluster_conf.BackendCheck { return cc })
+		defer func() {
+			backend.SetCheckConfFetcher(nil)
+			env.Bal.Release()
+		}()
+	} else {
+		backend.SetCheckConfFetcher(nil)
+	}
 	r.names, r.backs = env.Bal.VerifC07Backends()
 	if len(r.names) != len(sc.Subs) {
 		return "err:subs"
@@ -487,6 +533,7 @@ func Exec(op string) string {
 		}
 		for j, b := range r.backs[i] {
 			r.label[b] = fmt.Sprintf("%s%d", r.names[i], j)
+			r.all = append(r.all, b)
 			if !sc.Subs[i].Backs[j].Up {
 				b.SetAvail(false)
 			}
